@@ -200,7 +200,8 @@ def run_dm(ctx, case):
     Hh = Hh - np.trace(Hh).real / d * np.eye(d)
     near = np.eye(d) / d + eps_ * Hh
     want_n = eps_ * float(np.sqrt((np.abs(Hh) ** 2).sum() / 2))
-    ctx.close(gm.dm_to_gellmann_norm(_cast(near, backend, 64)), want_n, 1e-6, 'Gell-Mann norm of I/d + eps H = eps |H|_F / sqrt 2 (relative accuracy near the maximally mixed state)', want_n)
+    # I/d + eps H itself is only representable to 1.1e-16 absolute: the relative accuracy that can be asked for is ~1e-15/eps
+    ctx.close(gm.dm_to_gellmann_norm(_cast(near, backend, 64)), want_n, max(1e-6, 1e-14 / eps_), 'Gell-Mann norm of I/d + eps H = eps |H|_F / sqrt 2 (relative accuracy near the maximally mixed state)', want_n)
     ctx.close(gm.dm_to_gellmann_norm(_cast(np.eye(d) / d, backend, 64)), 0, 1e-15, 'Gell-Mann norm of the maximally mixed state = 0')
     # unnormalised Hermitian input: the norm ignores the trace part
     if len(shape) == 0:
